@@ -279,6 +279,19 @@ def main():
                     run.note("generator failed: " + g.stderr[-300:])
                     continue
                 extra = ["--in", inp]
+            nsh = cfg.get("shards", {}).get(comp, 1) if tier == "thorough" and not gen else 1
+            if nsh > 1:
+                # a slow component (forked children under ASan): nsh processes in parallel, each with its own derived
+                # seed and 1/nsh of the case count; every line is self-contained, so replay does not depend on this
+                from concurrent.futures import ThreadPoolExecutor
+                def one(i):
+                    o = os.path.join(work, f"{comp}.{i}.ops")
+                    return (o,) + vlib.run_harness(exe, comp, seed * 100 + i, tier, o, extra=["--shards", str(nsh)],
+                                                   timeout=cfg.get("timeout", 3000))
+                with ThreadPoolExecutor(max_workers=nsh) as ex:
+                    for o, rc, err in ex.map(one, range(nsh)):
+                        run.consume(comp, o, rc, err, use_driver=driver_ok)
+                continue
             rc, err = vlib.run_harness(exe, comp, seed, tier, outp, extra=extra, timeout=cfg.get("timeout", 3000))
             run.consume(comp, outp, rc, err, use_driver=driver_ok)
 
